@@ -53,6 +53,18 @@ CLAIMED = {
              "runs (agreement, key sizes, persistence at each step, distinct keys across sessions); statistical independence of keys is not expressible.",
         technique="Rocq proof (loop refinement of the KDF spec, modular-exponent algebra, finite table) + differential correspondence",
         design="4 (C14)"),
+    "C15": dict(
+        text="Machine-checked theorems over the executable model of ChunkReader.ReadChunk / KV.Size / the batching loop / reassembly: every chunk fits "
+             "its budget and is non-empty; reading never fails for a well-formed producer at any offered size; for every schedule of size budgets the "
+             "emitted chunks plus the pending content reassemble to the original stream (lossless, ordered, exactly once), completely at EOF; every batch "
+             "fits the MTU and the loop terminates; a yield starts a new batch. Tied to the code by differential runs of the real ChunkOutPipe (buffered and "
+             "unbuffered, split writes) and of exchangeServiceInfoRound (via hook) — a sweep over every remainder 0..45 before the budget is exhausted for "
+             "three key lengths, random schedules, an MTU grid — plus implementation-only monitors of the same statements.",
+        note=COMMON_NOTE + "Partial: goroutine interleavings are abstracted (the model reads finished messages; io.Pipe/bufPipe/channel hand-off is trusted "
+             "and only exercised, with buffered/unbuffered pipes and split writes). A key whose overhead exceeds the whole MTU stalls (empty batch, pending "
+             "data) — the model shows it (ex_round_stuck); the property's 'usable MTU range' excludes it.",
+        technique="Rocq proof (invariant over arbitrary size schedules, arithmetic of the CBOR length thresholds) + differential correspondence",
+        design="4 (C15)"),
     "C20": dict(
         text="Machine-checked theorems over the executable model of protocol.parseDirective/parseURLs/cbor.ArrayShift built on the CBOR "
              "decoder model: totality for every instruction list and role, other-role directives yield the zero directive, invariance under "
